@@ -1,20 +1,32 @@
 #!/usr/bin/env python3
-"""e2e_replay.py <pid> <tier> <seed> <index> — regenerate scenario <index> of the bounded family and run it through the release binary built from
-VERIF_REPO (default /repo); exit 1 when the property is violated on it, 0 otherwise."""
+"""e2e_replay.py <family> <pid> <tier> <seed> <index> — re-run a bounded end-to-end family (scenarios: only scenario <index>; errors / faults / signals: the
+whole family) against the release binary built from VERIF_REPO (default /repo); exit 1 when the property is violated, 0 otherwise."""
 import os
 import sys
 sys.path.insert(0, os.path.dirname(os.path.dirname(os.path.abspath(__file__))))
 from contracts import e2e  # noqa: E402
 
-pid, tier, seed, index = sys.argv[1], sys.argv[2], int(sys.argv[3]), int(sys.argv[4])
-r = e2e.run_family(pid, tier, seed, only=index)
+fam, pid, tier, seed, index = sys.argv[1], sys.argv[2], sys.argv[3], int(sys.argv[4]), int(sys.argv[5])
+if fam == "scenarios":
+    r = e2e.run_family(pid, tier, seed, only=index)
+elif fam == "errors":
+    r = e2e.run_errors(pid, tier, seed)
+elif fam == "faults":
+    from contracts import e2e_faults
+    r = e2e_faults.run_faults(pid, tier, seed)
+elif fam == "signals":
+    from contracts import e2e_signals
+    r = e2e_signals.run_signals(pid, tier, seed)
+else:
+    print("unknown family", fam)
+    sys.exit(2)
 if r.get("undecided"):
     print(r["undecided"])
     sys.exit(2)
 for v in r["violations"]:
     print("violated: %s" % v["msg"])
     d = v["extra"]["failing_input"]
-    print("configuration: %s" % {k: d[k] for k in d if k != "files"})
-    for f, t in d["files"].items():
-        print("--- src/%s\n%s" % (f, t))
+    print("input: %s" % {k: d[k] for k in d if k != "files"})
+    for f, t in (d.get("files") or {}).items():
+        print("--- %s\n%s" % (f, t if len(t) < 3000 else t[:300] + "..."))
 sys.exit(1 if r["violations"] else 0)
